@@ -480,6 +480,44 @@ def gen_scenario(rng, spec, nper=None) -> dict:
         for back in range(1, -lo[j] + 2):
             if rng.random() < 0.7:
                 sc["init"].append([j, back, _r(rng, -0.3, 0.3, 3)])     # deviation of V_j at start-back
+    shape_scenario(rng, spec, sc, split=rng.random() < 0.35, cancel=rng.random() < 0.3)
+    return sc
+
+
+def shape_scenario(rng, spec, sc, split=False, cancel=False):
+    """Classes of legitimate shock paths / options that a random draw rarely hits:
+    cancel -- anticipated shocks whose values cancel: in the LAST anticipated period across two (or three) different
+              shocks (column sum zero), or over time within one shock (row sum zero); nothing about a path of shocks may
+              depend on sums of their values;
+    split  -- simulate(..., force_split_frames=True): a new frame starts at every unanticipated shock; made non-trivial by an
+              unanticipated shock after the first period and an anticipated shock dated after it."""
+    nper, ns = sc["nper"], spec["nshocks"]
+    val = lambda: rng.choice([0.25, 0.5, 0.75, 1.0, 1.5]) * rng.choice([1, -1])
+    if cancel and nper >= 2:
+        if ns >= 2 and rng.random() < 0.75:
+            tc = rng.randint(max(1, nper // 2), nper - 1)
+            sc["v"] = [q for q in sc["v"] if q[1] < tc]
+            ss = rng.sample(range(ns), 3 if (ns >= 3 and rng.random() < 0.4) else 2)
+            a = val()
+            if len(ss) == 2:
+                sc["v"] += [[ss[0], tc, a], [ss[1], tc, -a]]
+            else:
+                b = val()
+                sc["v"] += [[ss[0], tc, a], [ss[1], tc, b], [ss[2], tc, -(a + b)]]
+        else:
+            s0 = rng.randrange(ns)
+            t1 = rng.randint(0, nper - 2); t2 = rng.randint(t1 + 1, nper - 1)
+            a = val()
+            sc["v"] = [q for q in sc["v"] if not (q[0] == s0)] + [[s0, t1, a], [s0, t2, -a]]
+    if split:
+        sc["split"] = True
+        if nper >= 3:
+            tu = rng.randint(1, nper - 2)
+            if not any(1 <= q[1] <= tu for q in sc["u"]):
+                sc["u"].append([rng.randrange(ns), tu, val()])
+            tu = min(q[1] for q in sc["u"] if q[1] >= 1)
+            if not any(q[1] > tu for q in sc["v"]):
+                sc["v"].append([rng.randrange(ns), rng.randint(tu + 1, nper - 1), val()])
     return sc
 
 
@@ -509,7 +547,8 @@ def run_scenario(m, spec, sc, deviation=None):
         if base != base:
             continue
         db[nm][p] = base * math.exp(dv) if spec["logs"][j] else base + dv
-    out = m.simulate(db, span, method="first_order", deviation=dev)
+    opts = {"force_split_frames": True} if sc.get("split") else {}
+    out = m.simulate(db, span, method="first_order", deviation=dev, **opts)
     return db, out, span
 
 
@@ -1041,6 +1080,7 @@ def correspondence(ctx) -> CorrResult:
             dist["scenarios"] += 1
             dist["deviation"] += int(sc["deviation"]); dist["anticipated"] += int(bool(sc["v"]))
             dist["unanticipated"] += int(bool(sc["u"]))
+            dist["split_frames"] = dist.get("split_frames", 0) + int(bool(sc.get("split")))
         bundles.append(b)
         dist["models"] += 1
         ns = b.nb + b.nf
@@ -1230,7 +1270,10 @@ def falsify(ctx, hints):
             sc2 = gen_scenario(rng, spec, nper=nper)
             if not any(q[1] == nper - 1 for q in sc2["v"]):
                 sc2["v"].append([rng.randrange(spec["nshocks"]), nper - 1, _r(rng, 0.3, 1.0, 3)])
-            scen = [sc1, sc2]
+            # third run: cancelling anticipated shocks and / or frame-by-frame simulation (force_split_frames=True)
+            sc3 = gen_scenario(rng, spec, nper=nper)
+            shape_scenario(rng, spec, sc3, split=not sc3.get("split") and rng.random() < 0.6, cancel=rng.random() < 0.6)
+            scen = [sc1, sc2, sc3]
         for k_run, sc in enumerate(scen):
             where = {"spec": spec, "scenario": sc, "scenarios": scen, "failing_run": k_run, "source": src}
             try:
